@@ -13,15 +13,37 @@ use tokio::time::Instant;
 use tonic::Status;
 
 /// Parses the topic name.
+/// The longest piece of client input that is echoed back in a status message.
+const MAX_ECHO_LEN: usize = 256;
+
+/// Shortens client input for use in a status message. Status messages travel in
+/// HTTP/2 headers, which clients cap at a few KiB: echoing an arbitrarily long
+/// value back would turn the intended status into a transport error.
+pub(crate) fn abbreviate(value: &str) -> std::borrow::Cow<'_, str> {
+    if value.len() <= MAX_ECHO_LEN {
+        return value.into();
+    }
+
+    let mut end = MAX_ECHO_LEN;
+    while !value.is_char_boundary(end) {
+        end -= 1;
+    }
+    format!("{}...", &value[..end]).into()
+}
+
 pub(crate) fn parse_topic_name(raw_value: &str) -> Result<TopicName, Status> {
-    TopicName::try_parse(raw_value)
-        .ok_or_else(|| Status::invalid_argument(format!("Invalid topic name '{}'", &raw_value)))
+    TopicName::try_parse(raw_value).ok_or_else(|| {
+        Status::invalid_argument(format!("Invalid topic name '{}'", abbreviate(raw_value)))
+    })
 }
 
 /// Parses the subscription name.
 pub(crate) fn parse_subscription_name(raw_value: &str) -> Result<SubscriptionName, Status> {
     SubscriptionName::try_parse(raw_value).ok_or_else(|| {
-        Status::invalid_argument(format!("Invalid subscription name '{}'", &raw_value))
+        Status::invalid_argument(format!(
+            "Invalid subscription name '{}'",
+            abbreviate(raw_value)
+        ))
     })
 }
 
@@ -29,7 +51,7 @@ pub(crate) fn parse_subscription_name(raw_value: &str) -> Result<SubscriptionNam
 pub(crate) fn parse_ack_id(raw_value: &str) -> Result<AckId, Status> {
     AckId::parse(raw_value).map_err(|e| match e {
         AckIdParseError::Malformed => {
-            Status::invalid_argument(format!("Invalid ack ID '{}'", &raw_value))
+            Status::invalid_argument(format!("Invalid ack ID '{}'", abbreviate(raw_value)))
         }
     })
 }
@@ -98,7 +120,9 @@ pub(crate) fn parse_page_token(raw_value: &str) -> Result<Option<PageToken>, Sta
 /// Parses a project ID form the format `projects/{project_id}`.
 pub(crate) fn parse_project_id(raw_value: &str) -> Result<String, Status> {
     return parse(raw_value)
-        .ok_or_else(|| Status::invalid_argument(format!("Invalid project name '{}'", &raw_value)));
+        .ok_or_else(|| {
+            Status::invalid_argument(format!("Invalid project name '{}'", abbreviate(raw_value)))
+        });
 
     /// The inner function that parses an option.
     #[inline(always)]
